@@ -3,7 +3,7 @@
 # usage: mybuild.sh [files to take from HEAD...]; then run /tmp/myh/run <ID> [args]
 H=/tmp/myh/harness
 mkdir -p /tmp/myh/out
-rsync -a --delete --exclude target /verif/harness/ "$H/"
+rsync -rlpc --delete --exclude target /verif/harness/ "$H/"
 for f in "$@"; do git -C /verif show 9a69882:harness/vcheck/src/$f > "$H/vcheck/src/$f"; done
 sed -i "s#\.\./vendor#/verif/vendor#g" "$H/Cargo.toml"
 sed -i "s#/verif/target#/tmp/myh/target#" "$H/.cargo/config.toml"
